@@ -40,7 +40,7 @@ ANCHORS = [
 REQUIRED = ["invocations_judged", "runs_judged", "feasibility_judged", "binding_invocations", "acceptance_judged", "bounds_judged",
             "estimator_bound_binding", "estimator_bound_sid_differs_from_station", "amp_periods_binding", "inactive_station_zero_checked",
             "algo:greedy", "algo:rr", "sort:fcfs", "sort:lcfs", "sort:edf", "sort:llf", "sort:lrpt", "est:None", "est:rampdown", "est:fixed",
-            "unint:on", "unint:off", "evse:EVSE", "evse:FR", "mixed_sign_network", "invocations_after_an_edit", "runs_with_a_reused_algorithm_object"]
+            "unint:on", "unint:off", "evse:EVSE", "evse:FR", "mixed_sign_network", "invocations_after_an_edit", "runs_with_a_reused_algorithm_object", "runs_on_predefined_sites"]
 BUDGET_S = {"quick": 270, "thorough": 3300}
 
 
@@ -99,10 +99,19 @@ def cases(seed, tier):
         if rng.random() < 0.12:
             c["warm"] = gen.scenario(rng, sched=dict(d["scheduler"]), kinds=("EVSE", "FR"), nmax=5, sess_max=6, constraint_free_p=0.1)
         out.append(c)
+    # the predefined sites (real three-phase wiring, 54 / 52 / 8 stations), many sessions competing behind the transformers
+    for i in range(12 if tier == "quick" else 400):
+        out.append({"site": ["caltech", "jpl", "office001"][i % 3], "basic": i % 2 == 0, "seed": rng.randrange(1 << 30),
+                    "sort": gen.SORTS[i % 5], "algo": ("greedy", "rr")[(i // 3) % 2]})
     return out
 
 
 def run_case(case, obs):
+    site_net = None
+    if "site" in case:
+        d, site_net = build.site_scenario(case)
+        case = dict(case, desc=d)
+        obs.ev("runs_on_predefined_sites")
     d = case["desc"]
     sd = d["scheduler"]
     ids, A, L, angles, names = oracles.dense_rows(d["network"])
@@ -124,7 +133,7 @@ def run_case(case, obs):
         sim, evs = build.build_sim(d, scheduler=algo0)
         obs.ev("runs_with_a_reused_algorithm_object")
     else:
-        sim, evs = build.build_sim(d)
+        sim, evs = build.build_sim(d, network=site_net)
     algo = sim.scheduler
     net = sim.network
     est = getattr(algo, "max_rate_estimator", None)
